@@ -6,7 +6,12 @@ props = [json.loads(l) for l in open(os.path.join(V, "properties.jsonl"))]
 
 # id -> (technique, level text, level note, design ref)
 DIFF = "bounded-exhaustive grammar/derivation enumeration executed on the real code, compared point by point with a reference interpreter"
+META = "bounded-exhaustive enumeration of identity-schema instantiations x documents executed on the real code; metamorphic oracle (implementation against itself)"
 claimed = {
+ "C17": (META,
+         "every instantiation of the structural identity schemata with sub-expressions from the stated menus is evaluated in both spellings on every document of the C01 alphabet and the two outcomes must be equal; no reference model is involved",
+         "trusts only the harness-side post-processing (null pruning, concatenation) and the instrumentation seam (sorted member order)",
+         "4/C17"),
  "C01": (DIFF + " (map-order seam fixed to sorted)",
          "every expression of the stated core sub-grammar (start x step chains, parenthesised prefixes, operators, let) is run on every JSON document of the stated alphabet and compared with the reference interpreter wherever it is determinate; exhaustive within the bounds, silent outside",
          "trusts the reference interpreter mc/ref (bound to the compliance corpus: 1024/1028 cases reproduced, 4 abstentions, 0 disagreements) and the instrumentation seam",
